@@ -105,9 +105,9 @@ func VPH_table() {
 	var hs HistorySize
 	// the numeric side of "qualifies" is VPH_concern's subject; here the values
 	// are picked from a menu around their references and the threshold is free.
-	par := []uint32{0, 5, 10, 15, 350}[vp_Choice("parents", 5)]         // reference 10; the last one is 35 x the reference (beyond --critical)
-	ent := []uint32{0, 999, 1000, 1999, 45000}[vp_Choice("entries", 5)] // reference 1000; the last one is 45 x the reference
-	lnk := []uint32{0, 25000, 49999, 1<<32 - 1}[vp_Choice("links", 4)]  // reference 25e3; the last one is saturated
+	par := []uint32{0, 5, 10, 15, 305, 350}[vp_Choice("parents", 6)]           // reference 10; 305 is between 30 x and 31 x the reference, 350 beyond
+	ent := []uint32{0, 999, 1000, 1999, 30000, 45000}[vp_Choice("entries", 6)] // reference 1000; 30000 is exactly 30 x the reference
+	lnk := []uint32{0, 25000, 49999, 1<<32 - 1}[vp_Choice("links", 4)]         // reference 25e3; the last one is saturated
 	var rendered []uint64
 	if !vp_Native() {
 		// numerals are C12's subject; keep them out of the table text, but record what is rendered
@@ -132,6 +132,34 @@ func VPH_table() {
 	vp_Assert(has("Maximum parents") == showPar, "row 'Maximum parents' shown iff it qualifies")
 	vp_Assert(has("Maximum entries") == showEnt, "row 'Maximum entries' shown iff it qualifies")
 	vp_Assert(has("Number of symlinks") == showLnk, "row 'Number of symlinks' shown iff it qualifies")
+	// the concern column of a shown row: floor(value/reference) asterisks up to 30, exclamation marks beyond
+	marker := func(name string) string {
+		for _, l := range strings.Split(out, "\n") {
+			if strings.Contains(l, name) {
+				cells := strings.Split(l, "|")
+				if len(cells) >= 4 {
+					return strings.Trim(cells[3], " ")
+				}
+			}
+		}
+		return "?"
+	}
+	wantMarker := func(v uint32, ref float64) string {
+		r := float64(v) / ref
+		if r > 30 {
+			return "!!!!!!!!!!!!!!!!!!!!!!!!!!!!!!"
+		}
+		return strings.Repeat("*", int(r))
+	}
+	if showPar {
+		vp_Assert(marker("Maximum parents") == wantMarker(par, 10), "concern marker of 'Maximum parents'")
+	}
+	if showEnt {
+		vp_Assert(marker("Maximum entries") == wantMarker(ent, 1000), "concern marker of 'Maximum entries'")
+	}
+	if showLnk && lnk == 1<<32-1 {
+		vp_Assert(marker("Number of symlinks") == "!!!!!!!!!!!!!!!!!!!!!!!!!!!!!!", "a saturated value is at the highest level of concern")
+	}
 	any := showPar || showEnt || showLnk
 	vp_Assert((out == "No problems above the current threshold were found\n") == !any, "'no problems' line iff no row qualifies")
 	vp_Assert(has("| Name ") == any, "table header iff some row")
